@@ -12,7 +12,8 @@ equivalent one in which those choices are undone:
   N3  setattr(o, 'name', v) / getattr(o, 'name') with a constant name become attribute stores / loads;
   N4  `acc = []` followed by `for t in it: [if c:] acc.append(e)` becomes a list comprehension;
   N5  zip(t1, t2, ...) of literal tuples (or single-assignment locals bound to them) becomes the literal tuple of rows;
-  N6  `d = {k: v for t in <literal> if c}` becomes `d = {}` followed by the (then unrolled) loop of guarded item stores.
+  N6  `d = {k: v for t in <literal> if c}` becomes `d = {}` followed by the (then unrolled) loop of guarded item stores;
+  N7  `x = a if c else b`, `return a if c else b` (a conditional expression as the whole value) become if/else statements.
 
 A helper is never inlined when a rule names it (the protect set: every identifier that occurs in a string constant of the
 rule sources), when a subclass overrides it (dynamic dispatch could pick another body), when it is a generator, has
@@ -620,21 +621,22 @@ class Normalizer:
                 tnames = set(binds[0])
                 jumps = [n for n in walk_no_nested(st.body) if isinstance(n, (ast.Break, ast.Continue))
                          and not _in_inner_loop(n, st)]
-                # search form: for t in (...): if c: break  [else: ...]
+                # search form: for t in (...): if c: <stmts>; break  [else: ...]
                 if len(st.body) == 1 and isinstance(st.body[0], ast.If) and not st.body[0].orelse \
-                        and len(st.body[0].body) == 1 and isinstance(st.body[0].body[0], ast.Break) \
+                        and st.body[0].body and isinstance(st.body[0].body[-1], ast.Break) and len(jumps) == 1 \
                         and not (tnames & names_stored(st.body)):
                     chain = None
                     last = list(st.orelse)
                     if not last:
                         last = [ast.Assign(targets=[clone(st.target)], value=clone(lit.elts[-1]))]
                     for b, e in reversed(list(zip(binds, lit.elts))):
-                        test = _Subst(b, {}).visit(clone(st.body[0].test)) if all(is_stable(v) for v in b.values()) \
-                            else None
-                        if test is None:
+                        if not all(is_stable(v) for v in b.values()):
                             chain = None
                             break
-                        node = ast.If(test=test, body=[ast.Assign(targets=[clone(st.target)], value=clone(e))],
+                        tr = _Subst(b, {})
+                        test = tr.visit(clone(st.body[0].test))
+                        inner = [tr.visit(x) for x in clone(st.body[0].body[:-1])]
+                        node = ast.If(test=test, body=[ast.Assign(targets=[clone(st.target)], value=clone(e))] + inner,
                                       orelse=last if chain is None else [chain])
                         chain = node
                     if chain is not None:
@@ -725,6 +727,35 @@ class Normalizer:
                     changed[0] = True
                     continue
                 out.append(st)
+            return out
+        fn.body = do_block(fn.body)
+        return changed[0]
+
+    # ------------------------------------------------------------------ N7
+    def ifexp_statements(self, fn):
+        changed = [False]
+
+        def split(st):
+            v = getattr(st, 'value', None)
+            if not isinstance(v, ast.IfExp) or not isinstance(st, (ast.Assign, ast.Return, ast.AugAssign)):
+                return [st]
+            a, b = clone(st), clone(st)
+            a.value, b.value = v.body, v.orelse
+            node = ast.If(test=v.test, body=split(a), orelse=split(b))
+            ast.copy_location(node, st)
+            changed[0] = True
+            return [node]
+
+        def do_block(stmts):
+            out = []
+            for st in stmts:
+                for f in ('body', 'orelse', 'finalbody'):
+                    if isinstance(getattr(st, f, None), list) and not isinstance(st, ast.ClassDef):
+                        setattr(st, f, do_block(getattr(st, f)))
+                if isinstance(st, ast.Try):
+                    for h in st.handlers:
+                        h.body = do_block(h.body)
+                out.extend(split(st))
             return out
         fn.body = do_block(fn.body)
         return changed[0]
@@ -836,6 +867,7 @@ class Normalizer:
         ch |= self.unroll(fn)
         ch |= self.attr_forms(fn)
         ch |= self.append_loops(fn)
+        ch |= self.ifexp_statements(fn)
         if not ch:
             return node
         ast.fix_missing_locations(fn)
